@@ -434,6 +434,11 @@ func (h *harness) countServed(c Case, o servedObs, canon string) {
 		m = r.Mode + "/promise"
 	}
 	h.run.Count("mode:" + m)
+	if r.NilEmpty {
+		h.run.Count("application-empty-result-as:typed-nil")
+	} else {
+		h.run.Count("application-empty-result-as:empty-slice")
+	}
 	if r.Mode == "window" {
 		h.run.Count("getter-policy:" + policyNames[c.Policy])
 	}
@@ -506,7 +511,7 @@ func (h *harness) evalWalk(c Case) (what, kind string) {
 			return fmt.Sprintf("the walk does not terminate: %d pages over %d edges", pages, len(c.E)), "property"
 		}
 		n := wk.N
-		r := Req{Mode: wk.Mode, Promise: wk.Promise, SelPI: true, SelTC: pages%2 == 0}
+		r := Req{Mode: wk.Mode, Promise: wk.Promise, SelPI: true, SelTC: pages%2 == 0, NilEmpty: (c.PolicySeed>>1)&1 == 1}
 		if wk.Forward {
 			r.First, r.After = &n, cur
 		} else {
@@ -643,8 +648,8 @@ func (h *harness) shrink(c Case, kind string) (Case, string) {
 				if d.Req == nil {
 					return false
 				}
-				ok := d.Req.Promise || d.Req.Vars || d.Req.NullAbsent
-				d.Req.Promise, d.Req.Vars, d.Req.NullAbsent = false, false, false
+				ok := d.Req.Promise || d.Req.Vars || d.Req.NullAbsent || d.Req.NilEmpty
+				d.Req.Promise, d.Req.Vars, d.Req.NullAbsent, d.Req.NilEmpty = false, false, false, false
 				return ok
 			},
 			func(d *Case) bool {
